@@ -112,4 +112,27 @@ def statusExt (statusTop : String) (cls : String) : R Val :=
   if statusTop != successUri then .raise cls else .ok (.bool true)
 
 
+def xsiType : String := "{http://www.w3.org/2001/XMLSchema-instance}type"
+
+/-- an extension `<saml:Condition>`: its `extension_attributes` hold `xsi:type` when the element carries one -/
+def encCond (t : Option String) : Val :=
+  .obj [("extension_attributes", .obj (match t with | some x => [(xsiType, .str x)] | none => []))]
+
+/-- a `Conditions` element: lexical NotBefore / NotOnOrAfter, the audience restrictions, the extension conditions -/
+def condV (nb nooa : Option String) (auds : List (List (Option String))) (extra : List (Option String)) : Val :=
+  .obj [("not_before", optStr nb), ("not_on_or_after", optStr nooa),
+        ("audience_restriction", .list (auds.map encR)), ("condition", .list (extra.map encCond))]
+
+/-- the fields of `self` that `condition_ok` reads or writes -/
+def selfCondFields (conds : Val) (skew : Nat) (me : String) (schemas : List String) (nooa0 : Int) : List (String × Val) :=
+  [("assertion", .obj [("conditions", conds)]), ("test", .bool false), ("timeslack", .int skew),
+   ("entity_id", .str me), ("extension_schema", .obj (schemas.map (fun s => (s, Val.none)))),
+   ("not_on_or_after", .int nooa0)]
+
+/-- the value of `self.not_on_or_after` when the method ends -/
+def nooaOf (o : Option Val) : Option Val :=
+  match o with
+  | some (.obj fs) => lookup fs "not_on_or_after"
+  | _ => none
+
 end PyTie
